@@ -514,10 +514,13 @@ PROPS["C20"] = dict(
           "present, absent, parameterised. The UI driver presses N+Enter for every number 1..N+1, o, then c, p and b. Oracle: the "
           "recorder's argv and stdin per keypress equal a reference substitution written from the README (exact match only, index >= 1, "
           "four placeholders; link on stdin iff no %url argument) applied to the link and media type obtained independently from "
-          "SelectLink/Media/ProfilePic/Banner; exactly one process per keypress, none when there is nothing to open. Non-trivial: at "
-          "least two hook runs, a placeholder-like argument and a link with shell-significant characters. Distinct = distinct case."),
+          "SelectLink/Media/ProfilePic/Banner; exactly one process per keypress, none when there is nothing to open. (ConfigHook) hook "
+          "lists with $VAR, ${VAR}, $1, $$, ~, padding, tabs and empty strings written to a configuration file and loaded by the real "
+          "loader: the configured argv is the file's list, string for string. Non-trivial: at least two hook runs, a placeholder-like "
+          "argument and a link with shell-significant characters / a list with $, ~ or %. Distinct = distinct case."),
     units=[
         rapid("Prop", "TestProp", 1200, 60000, shards=(8, 16), config_toml=_NET, timeout=dict(quick=600, thorough=3000)),
+        rapid("ConfigHook", "TestConfigHook", 4000, 200000, config_toml=_NET),
     ],
     manifest=dict(
         text=("Property-based testing through the real UI and a real exec: a recording hook program captures argv and stdin, which "
